@@ -270,11 +270,13 @@ wait:
 	if res.ok {
 		st.OK++
 	}
-	if !res.panicked && delta+(4<<20) > bound {
+	if !res.panicked && delta+(4<<20) > bound && delta < bound+(16<<20) {
 		// The cheap counter (runtime/metrics /gc/heap/allocs:bytes, no
 		// stop-the-world; small-object counts lag by at most a span per size
-		// class) is near or over the bound: repeat the decode and take the
-		// exact runtime.ReadMemStats TotalAlloc delta, which is what is judged.
+		// class, far below 4 MiB) is within [-4, +16) MiB of the bound: repeat
+		// the decode and take the exact runtime.ReadMemStats TotalAlloc delta,
+		// which is what is judged. Further away the two counters cannot disagree
+		// about the verdict.
 		var m0, m1 runtime.MemStats
 		runtime.ReadMemStats(&m0)
 		res2 := make(chan result, 1)
